@@ -254,6 +254,17 @@ class SimFS(AbstractFileSystem):
         if op.startswith('open:') or op in ('rm', 'truncate'):
             if path in self.protected:
                 self.hits.append(('%s-protected' % op, path, ev[4], self.seq))
+            fl = self.floors.get(path)
+            if fl is not None:
+                if op.startswith('open:') and 'w' in op:
+                    self.hits.append(('open-truncates-existing-file', path,
+                                      ev[4], self.seq))
+                elif op == 'rm':
+                    self.hits.append(('rm-existing-file', path, ev[4],
+                                      self.seq))
+                elif op == 'truncate' and detail['size'] < fl:
+                    self.hits.append(('truncate-below-floor', path, ev[4],
+                                      self.seq))
         elif op == 'rename':
             dst = detail['dst']
             if path in self.protected or dst in self.protected:
